@@ -40,6 +40,8 @@ pub struct Ctx {
     pub replay: Option<ReplaySpec>,
     /// volume multiplier (VERIF_SCALE, default 1.0) — for experiments only
     pub scale: f64,
+    /// VERIF_PURE_ONLY=1: run only the pure-function parts (used by the Miri shard)
+    pub pure_only: bool,
 }
 
 impl Ctx {
@@ -354,6 +356,23 @@ pub fn finish(ctx: &Ctx, meta: CheckMeta, total: Acc, started: Instant, verif_di
         std::fs::create_dir_all(format!("{verif_dir}/evidence")).ok();
         let p = format!("{verif_dir}/evidence/{prop}.json");
         std::fs::write(&p, serde_json::to_string_pretty(&ev).unwrap()).expect("write evidence");
+        // one line per run (all tiers / seeds), so that the multi-seed history is visible next to the
+        // last run's full evidence file
+        let git = |args: &[&str]| -> String { std::process::Command::new("git").args(args).output().ok().map(|o| String::from_utf8_lossy(&o.stdout).trim().to_string()).unwrap_or_default() };
+        let head = git(&["-C", "/repo", "rev-parse", "--short", "HEAD"]);
+        let dirty = !git(&["-C", "/repo", "status", "--porcelain", "--untracked-files=no"]).is_empty();
+        let line = json!({
+            "property_id": prop, "tier": ctx.tier.name(), "seed": ctx.seed, "scale": ctx.scale, "pure_only": ctx.pure_only,
+            "evaluations": total.evals, "distinct_nontrivial": distinct, "violations": n_viol,
+            "known_finding_hits": known_hits.values().sum::<u64>(), "inconclusive": ev["coverage"]["inconclusive"],
+            "wall_s": started.elapsed().as_secs_f64(), "repo_head": head, "repo_dirty": dirty,
+            "unix_time": std::time::SystemTime::now().duration_since(std::time::UNIX_EPOCH).map(|d| d.as_secs()).unwrap_or(0),
+        });
+        std::fs::create_dir_all(format!("{verif_dir}/runs")).ok();
+        use std::io::Write;
+        if let Ok(mut f) = std::fs::OpenOptions::new().create(true).append(true).open(format!("{verif_dir}/runs/{prop}.jsonl")) {
+            let _ = writeln!(f, "{line}");
+        }
     }
     for l in &viol_lines {
         println!("{l}");
